@@ -557,6 +557,16 @@ fn echo_job(job: &Value) -> Value {
     }
 }
 
+fn parse_job(job: &Value) -> Value {
+    // parse Rust source text (CLI output, macro expansion) into the same flat item list the builder output gets
+    let src = job.get("source").and_then(|x| x.as_str()).unwrap_or("");
+    match syn::parse_file(src) {
+        Ok(f) => json!({"id": job.get("id"), "ok": true, "items": scan::item_texts(&f),
+                        "inner_attrs": f.attrs.iter().map(|a| a.to_token_stream().to_string()).collect::<Vec<_>>()}),
+        Err(e) => json!({"id": job.get("id"), "ok": false, "err": e.to_string()}),
+    }
+}
+
 fn main() {
     std::panic::set_hook(Box::new(|_| {}));
     let stdin = std::io::stdin();
@@ -581,6 +591,7 @@ fn main() {
         let ans = match job.get("kind").and_then(|k| k.as_str()) {
             Some("semver") => semver_job(&job),
             Some("echo") => echo_job(&job),
+            Some("parse") => parse_job(&job),
             _ => {
                 // run on a big stack: deep recursion in typify on tiny inputs is an observation, not ours
                 let j = job.clone();
